@@ -118,6 +118,9 @@ func GenConfig(prop string, g *Gen, tier string) Config {
 	c.Format = []string{FmtBinary, FmtMarshaler}[g.Intn(2)]
 	c.Marshaler = "json"
 	c.KeyD = allKeyDialects[g.Intn(len(allKeyDialects))]
+	if c.KeyD == "namedint" && g.Intn(2) == 0 {
+		c.KeyD = "int64" // the named integer type at half the share of the others
+	}
 	if c.KeyD == "lstruct" && g.Intn(2) == 0 {
 		c.KeyD = "struct" // keep the uncomparable struct key at half the share of the others
 	}
@@ -542,6 +545,7 @@ func (s *genState) emitMotif(prop string) {
 		if len(t.model) < 4 {
 			return
 		}
+		var touched []int
 		for i, n := 0, 1+g.Intn(3); i < n; i++ {
 			k := s.anyKey(t, 40)
 			if variant == 2 {
@@ -555,6 +559,7 @@ func (s *genState) emitMotif(prop string) {
 			}
 			s.ops = append(s.ops, Op{K: "ins", T: ti, Key: k, Val: 5})
 			t.model[k] = 5
+			touched = append(touched, k)
 		}
 		var upper []int
 		best := 0
@@ -573,6 +578,10 @@ func (s *genState) emitMotif(prop string) {
 		}
 		sort.Ints(upper)
 		k := upper[g.Intn(len(upper))]
+		if len(touched) > 0 && g.Intn(2) == 0 {
+			// or: one of the entries just edited (its path is private in memory, its siblings are not)
+			k = touched[g.Intn(len(touched))]
+		}
 		s.ops = append(s.ops, Op{K: "del", T: ti, Key: k, Val: t.model[k]})
 		delete(t.model, k)
 		t.dirty = true
